@@ -211,11 +211,32 @@ int __wrap_open64(const char *path, int flags, ...) {
   return fd;
 }
 
+/* what a failing close() of a freshly written file MEANS (delayed allocation, quota, a network file system): the data
+   did not reach the disk.  For a version being written below the store the injected failure takes the bytes away. */
+static void lose_unflushed(int fd) {
+  int saved_errno = errno;
+  char link[64], path[4200];
+  snprintf(link, sizeof link, "/proc/self/fd/%d", fd);
+  ssize_t n = readlink(link, path, sizeof path - 1);
+  if (n <= 0) {
+    errno = saved_errno;
+    return;
+  }
+  path[n] = 0;
+  int flags = fcntl(fd, F_GETFL);
+  if (flags >= 0 && (flags & O_ACCMODE) != O_RDONLY && strstr(path, "/k/store/")) {
+    if (ftruncate(fd, 0)) {
+      /* nothing to do */
+    }
+  }
+  errno = saved_errno;
+}
+
 int __wrap_close(int fd) {
   if (W.close_hook) {
     return W.close_hook(fd);
   }
-  GATE_FAIL("close", (__real_close(fd), W.open_fds--, -1));
+  GATE_FAIL("close", (lose_unflushed(fd), __real_close(fd), W.open_fds--, -1));
   int r = __real_close(fd);
   if (r == 0) {
     W.open_fds--;
